@@ -8,8 +8,8 @@
 
 namespace c04 {
 
-template <typename Char, std::size_t N>
-auto Run<Char, N>::do_extra(std::uint32_t code) -> void
+template <typename Char, std::size_t N, typename Tr>
+auto Run<Char, N, Tr>::do_extra(std::uint32_t code) -> void
 {
     E const& cx     = *x;
     M& m            = *mx;
@@ -22,13 +22,13 @@ auto Run<Char, N>::do_extra(std::uint32_t code) -> void
     auto sel        = op.a;
     auto qrep = [&](char const* what, std::size_t got, std::size_t exp, std::string const& args) {
         nt_hit |= (exp != knpos);
-        if (got != exp) { fail(std::string(what) + " on " + show(m) + " with " + args + ": expected " + num(exp) + " got " + num(got)); }
+        if (got != exp && !tolerated(what)) { fail(std::string(what) + " on " + show(m) + " with " + args + ": expected " + num(exp) + " got " + num(got)); }
     };
     auto srep = [&](char const* what, int got, int exp, std::string const& args) {
         if (sgn(got) != sgn(exp)) { fail(std::string(what) + " on " + show(m) + " with " + args + ": expected sign " + std::to_string(sgn(exp)) + " got " + std::to_string(sgn(got))); }
     };
     auto brep = [&](char const* what, bool got, bool exp, std::string const& args) {
-        if (got != exp) { fail(std::string(what) + " on " + show(m) + " with " + args + ": expected " + (exp ? "true" : "false") + " got " + (got ? "true" : "false")); }
+        if (got != exp && !tolerated(what)) { fail(std::string(what) + " on " + show(m) + " with " + args + ": expected " + (exp ? "true" : "false") + " got " + (got ? "true" : "false")); }
     };
 
     switch (code) {
@@ -168,7 +168,7 @@ auto Run<Char, N>::do_extra(std::uint32_t code) -> void
     // ------------------------------------------------------------------ replace from inside the string
     case ALIAS_REPLACE: {
         auto pos = vpos(op.c >> 4, size);
-        auto cnt = qcount(op.c >> 8, size - pos);
+        auto cnt = qc(op.c >> 8, size - pos, pos);
         auto n1  = std::min(cnt, size - pos);
         auto n2  = fitlen(op.c >> 12, std::min(avail, room + n1));
         if ((op.c >> 3) % 2 == 0) { n2 = std::min(n1, avail); }
@@ -228,7 +228,7 @@ auto Run<Char, N>::do_extra(std::uint32_t code) -> void
         auto pos = qpos(op.c >> 4, size);
         auto n   = fitlen(op.c >> 8, avail);
         auto p1  = vpos(op.c >> 4, size);
-        auto n1  = qcount(op.c >> 12, size - p1);
+        auto n1  = qc(op.c >> 12, size - p1, p1);
         nt_alias = true;
         nt_edge |= (pos >= size);
         nt_empty |= (n == 0);
@@ -266,9 +266,9 @@ auto Run<Char, N>::do_extra(std::uint32_t code) -> void
         EO t(o.data(), o.size());
         auto pos = qpos(op.c >> 4, size);
         auto p1  = vpos(op.c >> 4, size);
-        auto n1  = qcount(op.c >> 8, size - p1);
+        auto n1  = qc(op.c >> 8, size - p1, p1);
         auto p2  = vpos(op.c >> 12, o.size());
-        auto n2  = qcount(op.c >> 16, o.size() - p2);
+        auto n2  = qc(op.c >> 16, o.size() - p2, p2);
         auto args = "other=" + show(o) + " pos=" + num(pos) + " p1=" + num(p1) + " n1=" + num(n1) + " p2=" + num(p2) + " n2=" + num(n2);
         switch (sel % 10) {
         case 0: self(x->assign(t), *x), m.assign(o); break;
@@ -346,6 +346,19 @@ auto Run<Char, N>::do_extra(std::uint32_t code) -> void
         }
         }
         if (r1 != r2) { fail(what + " returned " + num(r1) + " expected " + num(r2)); }
+        break;
+    }
+    // ------------------------------------------------------------------ the only iterator-range member that accepts a
+    // non-pointer iterator on this tree (the (first,last) constructor and assign delegate to (const_pointer, size_type))
+    case APPEND_INPUT_IT: {
+        auto s = srcn(op.a, fitlen(op.b, room));
+        auto b = pbuf(s);
+        nt_single_pass = true;
+        Fifo<Char> fe{b.get(), b.end(), 0};
+        Fifo<Char> fm{b.get(), b.end(), 0};
+        self(x->append(FifoIt<Char>(&fe), FifoIt<Char>()), *x);
+        m.append(FifoIt<Char>(&fm), FifoIt<Char>());
+        if (fe.p != fe.e || fe.pops != fm.pops) { fail("append(single-pass first,last) consumed " + num(fe.pops) + " elements of the source, std consumed " + num(fm.pops)); }
         break;
     }
     default: break;
